@@ -13,6 +13,7 @@ MC = """CONSTANTS
   DeletesCounted = %(dc)s
   AgeTestReversed = %(rev)s
   MigrationCommits = %(mig)s
+  BulkDecidesOnce = %(bo)s
   MaxBuffered = 64
   AgeMust = 15
   BulkSizes = {%(bulk)s}
@@ -30,6 +31,7 @@ GEN = """CONSTANTS
   DeletesCounted = TRUE
   AgeTestReversed = FALSE
   MigrationCommits = TRUE
+  BulkDecidesOnce = TRUE
   MaxBuffered = 64
   AgeMust = 15
   BulkSizes = {2, 3, 30, 49, 50, 51, 70}
@@ -65,17 +67,18 @@ def relevant(prop, clause):
 def model_phase(rep, tier):
     q = tier == "quick"
     sizes = dict(bulk="30, 51" if q else "2, 30, 49, 51", ticks="9, 15" if q else "1, 9, 15", maxi=120 if q else 170, maxt=33 if q else 40)
-    res = tlc.model_check("AwDurable", MC % dict(dc="TRUE", rev="FALSE", mig="TRUE", invs=ALL_INVS, **sizes), tag="mc_dur", timeout=2400)
+    res = tlc.model_check("AwDurable", MC % dict(dc="TRUE", rev="FALSE", mig="TRUE", bo="TRUE", invs=ALL_INVS, **sizes), tag="mc_dur", timeout=2400)
     rep.add_model(res, "commit-policy design layer (counter > 50 or age > 10 s, deletes counted) satisfies the property layer "
                        "(BufferedBounded 64, BucketOpsDurable, AgeBound 15 s, CounterExact, DurableMonotone) for all histories within the bound (incl. operations that raise, crashes)")
     # negative controls: the same text with the pinned tree's knobs must be refuted (the properties are not vacuous)
     neg = {}
     small = MC.replace("Threshold = 50", "Threshold = 5").replace("MaxBuffered = 64", "MaxBuffered = 7")
-    for name, dc, rev, mig, inv in (("deletes-uncounted", "FALSE", "FALSE", "TRUE", "INVARIANT BufferedBounded"),
-                                    ("age-test-reversed", "TRUE", "TRUE", "TRUE", "INVARIANT AgeBound"),
-                                    ("migration-not-committed", "TRUE", "FALSE", "FALSE", "INVARIANT BufferedBounded"),
-                                    ("control-of-the-control", "TRUE", "FALSE", "TRUE", "INVARIANT BufferedBounded\nINVARIANT AgeBound")):
-        r = tlc.model_check("AwDurable", small % dict(dc=dc, rev=rev, mig=mig, invs=inv, bulk="2, 5", ticks="9, 15", maxi=24, maxt=33),
+    for name, dc, rev, mig, bo, inv in (("deletes-uncounted", "FALSE", "FALSE", "TRUE", "TRUE", "INVARIANT BufferedBounded"),
+                                        ("age-test-reversed", "TRUE", "TRUE", "TRUE", "TRUE", "INVARIANT AgeBound"),
+                                        ("migration-not-committed", "TRUE", "FALSE", "FALSE", "TRUE", "INVARIANT BufferedBounded"),
+                                        ("bulk-write-decides-per-statement", "TRUE", "FALSE", "TRUE", "FALSE", "INVARIANT AgeBound"),
+                                        ("control-of-the-control", "TRUE", "FALSE", "TRUE", "TRUE", "INVARIANT BufferedBounded\nINVARIANT AgeBound")):
+        r = tlc.model_check("AwDurable", small % dict(dc=dc, rev=rev, mig=mig, bo=bo, invs=inv, bulk="2, 5", ticks="9, 15", maxi=24, maxt=33),
                             tag="mc_dur_neg", expect_ok=False, timeout=1200)
         if name == "control-of-the-control":
             if not r["ok"]:
